@@ -453,7 +453,7 @@ def canon_out(o: Any, file_backed: bool) -> Any:
 
 def gen_elem(rng: random.Random, depth: int, ids: Optional[str], kind: Optional[str] = None) -> Dict[str, Any]:
     k = kind or ("coll" if depth > 0 and rng.random() < 0.4 else "prop")
-    q = [[t, rng.randrange(3)] for t in QTYPES if rng.random() < 0.3]
+    q = [[t, rng.randrange(3)] for t in QTYPES if rng.random() < 0.45]
     ch = []
     if k == "coll":
         for n in rng.sample(IDSHORTS, rng.randint(0, len(IDSHORTS))):
@@ -464,7 +464,7 @@ def gen_elem(rng: random.Random, depth: int, ids: Optional[str], kind: Optional[
 def gen_obj(rng: random.Random, kind: str, i: str) -> Dict[str, Any]:
     ids = rng.choice([None, "x1", "sh"])
     if kind == "sm":
-        q = [[t, rng.randrange(3)] for t in QTYPES if rng.random() < 0.3]
+        q = [[t, rng.randrange(3)] for t in QTYPES if rng.random() < 0.45]
         ch = [gen_elem(rng, 2, n) for n in rng.sample(IDSHORTS, rng.randint(0, len(IDSHORTS)))]
         return mk_sm(i, ids, rng.randrange(4), q, ch)
     if kind == "shell":
@@ -583,15 +583,19 @@ def gen_request(rng: random.Random, wild: float = 0.15, snapshot: Optional[List[
     if r < 0.88:
         return mk_req("DELETE", ["submodels", sm_seg, "submodel-elements", praw], acc)
     # qualifiers (on the submodel or on an element) and submodel refs
-    qsegs = ["submodels", sm_seg] + (["submodel-elements", praw] if rng.random() < 0.5 else []) + ["qualifiers"]
+    on_elem = rng.random() < 0.5
+    qsegs = ["submodels", sm_seg] + (["submodel-elements", praw] if on_elem else []) + ["qualifiers"]
     qt = rng.choice(QTYPES)
+    qnode = (tnode if on_elem else (target["root"] if target is not None and kind == "sm" else None))
+    if qnode is not None and qnode.get("q") and rng.random() < 0.7:
+        qt = rng.choice(qnode["q"])[0]
     qseg = b64(qt, pad) if not (w and rng.random() < 0.2) else "A"
-    if r < 0.90:
+    if r < 0.895:
         return mk_req("GET", qsegs + ([qseg] if rng.random() < 0.6 else []), acc, level=level)
-    if r < 0.93:
+    if r < 0.92:
         return with_body("POST", qsegs, {"k": "qual", "t": rng.choice(QTYPES), "v": rng.randrange(3)})
     if r < 0.95:
-        return with_body("PUT", qsegs + [qseg], {"k": "qual", "t": qt if rng.random() < 0.7 else rng.choice(QTYPES), "v": rng.randrange(3)})
+        return with_body("PUT", qsegs + [qseg], {"k": "qual", "t": qt if rng.random() < 0.6 else rng.choice(QTYPES), "v": rng.randrange(3)})
     if r < 0.96:
         return mk_req("DELETE", qsegs + [qseg], acc)
     sh = ["shells", seg_id, "submodel-refs"]
@@ -1107,6 +1111,9 @@ class OracleRun:
                 if out[1] != 204:
                     return self.fail("http:elem-delete:not-204", f"DELETE element answered {out[1]}", out, 204)
                 parent["ch"] = [c for c in parent["ch"] if c["ids"] != path[-1]]
+                o2 = self.send(mk_req("GET", segs, self.acc()))
+                if o2[0] != "resp" or o2[1] != 404:
+                    return self.fail("http:elem-delete:still-there", f"element {'.'.join(path)} answered {o2[:2]} after its DELETE was answered 204", o2, 404)
                 return None
             if e["ids"] != path[-1] or e["k"] != target["k"]:
                 if 400 <= out[1] < 500:
